@@ -947,6 +947,41 @@ func child(c *core.Ctx) {
 	// one seeded order for both processes: when the time budget cuts the run, both have replayed a
 	// common prefix of the same sequence
 	rng.Shuffle(len(paths), func(a, b int) { paths[a], paths[b] = paths[b], paths[a] })
+	// directed: storage fills followed by overwrite-and-delete, per sender and alternating - whatever in
+	// block execution depends on Go's map iteration order shows only in some runs, so these short
+	// behaviours go first and are repeated (every replay builds fresh replicas with fresh maps)
+	var directed [][]int
+	for _, plan := range [][][2]string{
+		{{"a1", "1"}, {"a1", "2"}}, {{"a2", "1"}, {"a2", "2"}}, {{"a1", "1"}, {"a2", "2"}}, {{"a2", "1"}, {"a1", "2"}},
+		{{"a1", "1"}, {"a1", "2"}, {"a1", "1"}, {"a1", "2"}}, {{"a1", "1"}, {"a2", "2"}, {"a2", "1"}, {"a1", "2"}},
+	} {
+		cur, ok := 0, true
+		var p []int
+		for _, st := range plan {
+			found := -1
+			for _, ei := range g.Out[cur] {
+				var a aAct
+				json.Unmarshal(g.Edges[ei].Act, &a)
+				if a.Ok && len(a.Blk) == 1 && a.Blk[0].K == "sst" && a.Blk[0].fromAcct() == st[0] && fmt.Sprint(a.Blk[0].A) == st[1] {
+					found = ei
+					break
+				}
+			}
+			if found < 0 {
+				ok = false
+				break
+			}
+			p = append(p, found)
+			cur = g.Edges[found].To
+		}
+		if ok {
+			for rep := 0; rep < 4; rep++ {
+				directed = append(directed, append(p[:len(p):len(p)], []int{}...))
+			}
+		}
+	}
+	paths = append(directed, paths...)
+	repeatOK := len(directed)
 	started, planned, cut := time.Now(), len(paths), 0
 	out := map[string]interface{}{}
 	digests := map[string][]blockDigest{}
@@ -960,7 +995,7 @@ func child(c *core.Ctx) {
 			break
 		}
 		key := fmt.Sprint(p)
-		if seen[key] {
+		if seen[key] && pi >= repeatOK {
 			continue
 		}
 		seen[key] = true
